@@ -4,6 +4,19 @@ from .core import Prop, cq_N, cq_list, cq_opt, cq_bool
 KIND = {"c": "Counter", "g": "Gauge", "h": "Histogram"}
 
 
+DMAX = (2 ** 64 - 1) * 10 ** 9 + 999999999      # Duration::MAX in nanoseconds
+
+
+def tmo(rng):
+    """idle timeout in ticks (ns): small ones around which the advances are drawn, and 'never expire'
+    style ones (2^63, u64::MAX ns, Duration::MAX) - arithmetic on instants must not overflow or panic"""
+    return rng.weighted([(12, rng.range(1, 20)), (1, 2 ** 63), (1, 2 ** 64 - 1), (1, DMAX)])
+
+
+def tmo_tok(t):
+    return "-" if t is None else ("M" if t == DMAX else str(t))
+
+
 def uval(rng):
     """update value: a third of the updates leave the value unchanged (increment(0), set(0) on a
     zero gauge) - an update all the same, which must reset the idle clock"""
@@ -40,10 +53,10 @@ class C12(Prop):
             if rng.chance(1, 8):
                 T = None
             else:
-                T = rng.range(1, 20)
+                T = tmo(rng)
             nkeys = rng.range(1, 4)
             ops = []
-            tt = T or 5
+            tt = T if (T and T < 100) else 5
             for _ in range(rng.range(1, 40)):
                 r = rng.below(10)
                 k = rng.pick("cgh") if not rng.chance(1, 3) else rng.pick("cg")
@@ -95,9 +108,10 @@ class C12(Prop):
         toks = []
         for o in c["ops"]:
             toks.append(self._tok(o))
-        return "%d %s | %s" % (c["mask"], "-" if c["timeout"] is None else c["timeout"], " ".join(toks))
+        return "%d %s | %s" % (c["mask"], tmo_tok(c["timeout"]), " ".join(toks))
 
     def parse_out(self, c, line):
+        # "panic": the code under test panicked somewhere in the history - no model run has this outcome
         return line.split()
 
     def coq_case(self, c):
@@ -127,10 +141,12 @@ class C12(Prop):
                 xs.append("OAbsent")
             elif t == "d":
                 xs.append("ODeleted")
+            elif t == "panic":
+                continue          # the output list is then shorter than the history: never equal to a model run, and spec_ok is false
             else:
                 _, g, vs = t.split(":")
                 xs.append("OKept %s %s" % (cq_N(int(g)), cq_list([cq_N(int(v)) for v in vs.split(",")])))
-        return cq_list(xs)
+        return cq_list(xs) if xs else "(@nil out)"
 
     def signature(self, c, out):
         if "d" not in out and not any(t.startswith("k:") for t in out):
@@ -170,8 +186,8 @@ class C12(Prop):
         cases = []
         for _ in range(n):
             mask = rng.weighted([(6, 7), (1, 0), (3, rng.below(8))])
-            T = None if rng.chance(1, 8) else rng.range(1, 20)
-            tt = T or 5
+            T = None if rng.chance(1, 8) else tmo(rng)
+            tt = T if (T and T < 100) else 5
             nkeys = rng.range(1, 3)
             ops = []
             for _ in range(rng.range(2, 30)):
@@ -220,7 +236,7 @@ class C12(Prop):
             toks = []
             for o in c["ops"]:
                 toks.append("U%s%d:%d" % (o[1], o[2], o[3]) if o[0] == "U" else ("A%d" % o[1] if o[0] == "A" else "R"))
-            return "%s%d %s %d | %s" % ("REAL " if real else "", c["mask"], "-" if c["timeout"] is None else c["timeout"], c.get("naming", 0), " ".join(toks))
+            return "%s%d %s %d | %s" % ("REAL " if real else "", c["mask"], tmo_tok(c["timeout"]), c.get("naming", 0), " ".join(toks))
         rc, outs, err = core.run_impl(binpath, [line(c) for c in cases], timeout=900)
         if rc != 0 or len(outs) != len(cases):
             raise core.MachineryBroken("c12p driver failed: rc=%s %s" % (rc, err[-1000:]))
@@ -229,6 +245,8 @@ class C12(Prop):
             targets = sorted({(op[1], op[2]) for op in c["ops"] if op[0] == "U"}, key=lambda t: ("cgh".index(t[0]), t[1]))
             toks = o.split(" ")
             hist, pouts = [], []
+            if o.strip() == "panic":
+                toks = []        # the exporter panicked: history kept, no observations -> never equal to a model run
             for op, tok in zip(c["ops"], toks):
                 if op[0] == "U":
                     hist.append("Update %s %s %s" % (KIND[op[1]], cq_N(op[2]), cq_N(op[3]))); pouts.append("PUnit")
@@ -246,6 +264,14 @@ class C12(Prop):
                             pouts.append("PKept %s" % cq_list([cq_N(x) for x in present[(k, key)]]))
                         else:
                             pouts.append("PGone")
+            if not toks:
+                for op in c["ops"]:
+                    if op[0] == "U":
+                        hist.append("Update %s %s %s" % (KIND[op[1]], cq_N(op[2]), cq_N(op[3])))
+                    elif op[0] == "A":
+                        hist.append("Advance %s" % cq_N(op[1]))
+                    else:
+                        hist += ["Observe %s %s" % (KIND[k], cq_N(key)) for (k, key) in targets]
             m = c["mask"]
             cfg = "{| mask_c := %s; mask_g := %s; mask_h := %s; timeout := %s; by_kind := true |}" % (
                 cq_bool(m & 1), cq_bool(m & 2), cq_bool(m & 4), cq_opt(None if c["timeout"] is None else cq_N(c["timeout"])))
